@@ -51,6 +51,11 @@ var writers = []tmpl{
 	{"X[0][0] = 9", "child-indexset", ""},
 	{"X.b[0] = 9", "child-indexset", ""},
 	{"X[0].k[0] = 9", "child-indexset", ""},
+	// depth-3 writes, through the first and through the SECOND reference to a shared child
+	{"X[0][0][0] = 9", "child-indexset", ""},
+	{"X[1][0][0] = 9", "child-indexset", ""},
+	{"X.a.k[0] = 9", "child-indexset", ""},
+	{"X.b.k[0] = 9", "child-indexset", ""},
 	{"X[0].value[0] = 9", "errvalue-indexset", ""},
 	{"X.value[0] = 9", "errvalue-indexset", ""},
 	// the same write compiled to OpSetSelLocal / OpSetSelFree instead of OpSetSelGlobal
